@@ -24,7 +24,12 @@
          with requirements that cover them, the text FiltersSet.tosieve writes -- require line, blank line, the
          marker comments, the filters -- is ACCEPTED by the parser and parses to the require command followed by
          the filters in order, each an `if` carrying its marker lines, `if false` exactly for the disabled ones
-         (C06_set_accepted).  Unbounded over values, list lengths, numbers of conditions/actions/filters.
+         (C06_set_accepted).  Unbounded over values, list lengths, numbers of conditions/actions/filters;
+     (e) histories (factory/BuildHistory.v): every state reached from the empty set by addfilter / updatefilter with
+         documented definitions and replacefilter (with a tree the set built) / removefilter / enablefilter /
+         disablefilter / movefilter satisfies an invariant (representable structure, every tree good, requirements
+         without duplicates that cover every tree ever built) under which no documented operation raises and
+         the rendered text is accepted (C06_history_runs, C06_history_accepted).
    Hypotheses on values (each shown necessary by a generated case or a known finding): strings do not start with
    a quote character (outside the claim), are valid UTF-8, lists are not empty, a header name given as one string
    is not a condition keyword and does not start with "not" (the factory would take it for a negation -- recorded
@@ -36,7 +41,7 @@ From Coq Require Import List NArith Bool Arith.
 From SV Require Import Bytes Lexer Text TextFacts.
 Import ListNotations.
 Local Open Scope nat_scope.
-From SV Require Import Tables ArgCheck ArgSpec Machine Printer CompleteFacts CompleteTree RenderFacts PrintTree GenTables Ops Build BuildFacts BuildSet.
+From SV Require Import Tables ArgCheck ArgSpec Machine Printer CompleteFacts CompleteTree RenderFacts PrintTree GenTables Ops Build BuildFacts BuildSet Load LoadFacts BuildHistory.
 
 (* every documented condition form: the test __create_filter builds stands for [ctest d]; negation flag and requirements as stated *)
 Theorem C06_condition_built :
@@ -144,6 +149,33 @@ Theorem C06_set_accepted :
     end.
 Proof. exact BuildSet.factory_set_accepted. Qed.
 Print Assumptions C06_set_accepted.
+
+(* histories: from every set reached by the editing operations (addfilter/updatefilter with documented definitions; replace/remove/enable/disable/move) the next documented operation does not raise *)
+Theorem C06_history_runs :
+  forall (loaded : list bytes) (st : bstate) (o : bop),
+  reach loaded st ->
+  bop_ok (b_next st) o ->
+  exists st' : bstate, bapply loaded o st = BOk st' /\ reach loaded st'.
+Proof. exact BuildHistory.history_runs. Qed.
+Print Assumptions C06_history_runs.
+
+(* ... and the text of every reachable non-empty set is accepted by the parser (and loads back as the same set: C11) *)
+Theorem C06_history_accepted :
+  forall (loaded : list bytes) (st : bstate) (name_pre desc_pre : bytes) (fuel : nat),
+  reach loaded st ->
+  b_set st <> [] ->
+  5 <= fuel ->
+  marker_ok name_pre ->
+  marker_ok desc_pre ->
+  names_ok name_pre desc_pre (b_set st) ->
+  exists (text : bytes) (ns : list node) (lfs : list lfilter),
+    b_render gen_tables loaded fuel name_pre desc_pre st = BOk text /\
+    parse gen_tables text = Accept ns /\
+    from_parser_result name_pre desc_pre ns = (b_reqs st, lfs) /\
+    map (fun f : lfilter => (lf_name f, lf_desc f, lf_enabled f)) lfs =
+    map (fun f : filter => (f_name f, desc_text (f_desc f), f_enabled f)) (b_set st).
+Proof. exact BuildHistory.history_reload. Qed.
+Print Assumptions C06_history_accepted.
 
 (* non-vacuity: a definition with ten condition forms and four action forms over hostile values (quotes, backslashes, commas, brackets, script fragments, a line feed, non-ASCII) meets the hypotheses *)
 Theorem C06_example_hypotheses :
